@@ -302,10 +302,11 @@ func (fs *FileSink) pruneFiles() error {
 	// get all the files that match the log file pattern. The directory is
 	// listed rather than globbed: a configured path or file name is not a glob
 	// pattern (logs[1] would match nothing, and nothing would ever be pruned).
-	// (the configured file name may carry a directory part: the files live
-	// where the active file lives)
-	dir := filepath.Dir(filepath.Join(fs.Path, fs.FileName))
-	pattern := filepath.Base(fs.fileNamePattern())
+	// (the configured file name may carry a directory part, or be empty: the
+	// rotated files live where the pattern puts them)
+	pattern := fs.fileNamePattern()
+	dir := filepath.Dir(filepath.Join(fs.Path, fmt.Sprintf(pattern, "0")))
+	pattern = filepath.Base(pattern)
 	entries, err := os.ReadDir(dir)
 	if err != nil {
 		return err
